@@ -20,6 +20,7 @@ import (
 	"github.com/openfga/openfga/internal/verifsim/gen"
 	"github.com/openfga/openfga/internal/verifsim/harness"
 	rm "github.com/openfga/openfga/internal/verifsim/refmodel"
+	"github.com/openfga/openfga/internal/verifsim/hsql"
 	"github.com/openfga/openfga/internal/verifsim/simrt"
 	"github.com/openfga/openfga/internal/verifsim/simstore"
 	"github.com/openfga/openfga/pkg/storage"
@@ -84,6 +85,25 @@ func Setup(t *testing.T, sc *gen.Scenario, trace bool, out *harness.Outcome) *En
 	run := simrt.Begin(simrt.Config{Seed: sc.RunSeed, Mode: int(sc.Knob("delay_mode", 0)), Trace: trace, MaxYield: sc.Knob("max_yield_ns", 2000)})
 	e := &Env{T: t, Sc: sc, Run: run, Out: out, LoEngine: -1}
 	e.Mem = memory.New()
+	ok := false
+	defer func() {
+		if !ok { // unusable scenario: nothing will call Close
+			for i := len(e.cleanup) - 1; i >= 0; i-- {
+				e.cleanup[i]()
+			}
+		}
+	}()
+	if sc.Knob("sqlite", 0) == 1 {
+		// the real SQLite backend (through the simulated database/sql driver of hsql) under the same
+		// simulated datastore wrapper
+		ds, closeDS, err := hsql.OpenForEngine(run)
+		if err != nil {
+			out.Infra = "sqlite: " + err.Error()
+			return nil
+		}
+		e.Mem = ds
+		e.OnClose(closeDS)
+	}
 	e.DS = simstore.NewDS(e.Mem, run, dsConfig(sc))
 	e.StoreID = e.NewULID(1)
 	run.Name(e.StoreID, "S1")
@@ -111,6 +131,7 @@ func Setup(t *testing.T, sc *gen.Scenario, trace bool, out *harness.Outcome) *En
 		return nil
 	}
 	e.Ref = rm.NewState(sc.Model, sc.Tuples)
+	ok = true
 	return e
 }
 
@@ -290,7 +311,7 @@ func (e *Env) JudgeCheck(who string, rq gen.Request, st *rm.State, allowed bool,
 		} else if st.ShadowedSibling(rq.User, rq.Ctx) {
 			sig += " unsatisfied_conditional_tuple_shadows_sibling_of_same_object"
 		}
-		e.Violate("false_for_true", sig, "%s: allowed=false, %s", desc, ref)
+		e.Violate("false_for_true", sig+e.denyTags(rm.ObjType(rq.Obj), rq.Rel), "%s: allowed=false, %s", desc, ref)
 	case !allowed && sup.CanBeTrue:
 		if sup.Approx {
 			simrt.Probe("approx_skipped")
@@ -303,7 +324,7 @@ func (e *Env) JudgeCheck(who string, rq gen.Request, st *rm.State, allowed bool,
 		} else if st.ShadowedSibling(rq.User, rq.Ctx) {
 			sig += " unsatisfied_conditional_tuple_shadows_sibling_of_same_object"
 		}
-		e.Violate("false_for_undecided", sig, "%s: allowed=false although the answer depends on a condition that cannot be evaluated; the request should fail (%s)", desc, ref)
+		e.Violate("false_for_undecided", sig+e.denyTags(rm.ObjType(rq.Obj), rq.Rel), "%s: allowed=false although the answer depends on a condition that cannot be evaluated; the request should fail (%s)", desc, ref)
 	default:
 		if sup.N > 0 {
 			simrt.Probe("decided_despite_unevaluable")
@@ -352,6 +373,15 @@ func (e *Env) engineTags(st *rm.State, rq gen.Request) string {
 		return " unsatisfied_conditional_tuple_shadows_sibling_of_same_object"
 	case st.SwallowedBySibling(rq.Ctx, st.Unevaluable(rq.Ctx)):
 		return " condition_error_has_satisfied_sibling"
+	}
+	return ""
+}
+
+// denyTags: a defect that wrongly GRANTS membership (F39) turns into a lost answer when the
+// wrongly granted relation sits in an exclusion's subtrahend.
+func (e *Env) denyTags(typ, rel string) string {
+	if ReachesKind(e.Sc.Model, typ, rel, rm.Difference) && TwoUsersetsOfOneType(e.Sc.Model, typ, rel) {
+		return " under_exclusion two_userset_restrictions_of_one_type"
 	}
 	return ""
 }
